@@ -58,12 +58,21 @@ VARIANTS = {
 }
 
 
+def has_probe():
+    return os.path.exists(os.path.join(os.environ.get("VERIF_REPO") or "/repo", "integer", "src", "verif_probe.rs"))
+
+
 def build(variant="std64", bin_name="drive"):
     """(Re)builds the harness against /repo's current working tree; returns the binary path."""
     cargo_args, flags, tdir = VARIANTS[variant]
     rustflags = ["--cfg", "dashu_verif", "--check-cfg", "cfg(dashu_verif)",
                  "--check-cfg", 'cfg(force_bits, values("16","32","64"))'] + flags
     alt = os.environ.get("VERIF_REPO")     # development aid: build against a scratch worktree instead of /repo
+    # the rare-branch counters (integer/src/verif_probe.rs, cfg(dashu_verif)) exist from the hook commit on: the harness
+    # code that reads them is compiled only against a tree that has them
+    rustflags += ["--check-cfg", "cfg(dashu_probe)"]
+    if has_probe():
+        rustflags += ["--cfg", "dashu_probe"]
     if alt:
         tdir = os.path.join("/tmp", "verif-target-" + hashlib.md5(alt.encode()).hexdigest()[:8], tdir)
         cargo_args = cargo_args + ["--config", "paths=[%s]" % ",".join(
@@ -345,6 +354,7 @@ class Ctx:
         self.violations = []    # (event, why, source)
         self.beyond = []        # (event, why, source): observations beyond the statement
         self.beyond_checked = 0
+        self.probe_hits = {}    # rare-branch counters of the library summed over the driver runs
         self.known_hits = {}    # id -> count
         self.samples = []
         self.cover = {}
@@ -439,6 +449,15 @@ class Ctx:
         if rc != 0:
             sys.stderr.write(o[-3000:])
             raise ToolError("harness driver failed rc=%d: %s" % (rc, " ".join(argv[:4])))
+        # rare-branch counters of the library as seen by this driver run (side file, written when the tree has the hook)
+        side = out + ".probe"
+        if os.path.exists(side):
+            try:
+                for h in json.load(open(side)).get("hits", []):
+                    if h["n"]:
+                        self.probe_hits[h["name"]] = self.probe_hits.get(h["name"], 0) + h["n"]
+            except Exception:
+                pass
         return out
 
     def monitor(self, name, specdir, module, cfg, trace, timeout=1500, libs=(), heap="6g", nontrivial=None,
@@ -538,6 +557,8 @@ class Ctx:
                 byw[w] = byw.get(w, 0) + 1
             for w, n in sorted(byw.items()):
                 lines.append("BEYOND-PROPERTY: property=%s %s (%d event(s); not part of the statement, no verdict)" % (self.prop, w, n))
+        if self.probe_hits:
+            cov["library_rare_branches_taken"] = self.probe_hits
         if extra:
             cov.update(extra)
         ev = {"property_id": self.prop, "tier": self.tier, "seed": self.seed, "level": level, "coverage": cov,
